@@ -342,7 +342,7 @@ func sinksMain(args []string) {
 				}()
 			}
 			returned := 0
-			deadline := time.After(2500 * time.Millisecond)
+			deadline := time.After(8 * time.Second)
 		collect:
 			for returned < nC {
 				select {
@@ -356,7 +356,7 @@ func sinksMain(args []string) {
 				}
 			}
 			if returned < nC {
-				oracle("C13 ChannelSink: %d concurrent Process calls on a channel nobody reads (timeout 30ms): only %d returned within 2.5s, the others are still blocked", nC, returned)
+				oracle("C13 ChannelSink: %d concurrent Process calls on a channel nobody reads (timeout 30ms): only %d returned within 8s, the others are still blocked", nC, returned)
 			}
 			st.hit("chan-concurrent")
 			st.Cases++
